@@ -47,6 +47,24 @@ def pBoxes? : List String → Option (List (Nat × (Val × Bool × Val × Bool))
       some ((k, i) :: tl)
   | _ => none
 
+/-- search for a point at which both premises hold, every recorded sign assumption keeps the sign it has at the model, and the
+    returned resolvent fails: a concrete refutation of "the resolvent is a consequence of the premises" -/
+def fmCounterexample (p1 : MPoly) (c1 : Nat) (p2 : MPoly) (c2 : Nat) (R : MPoly) (rc : Nat) (asms : List MPoly) (a : LP.Asg) :
+    Option String :=
+  match asms.mapM (fun q => Eval.exactSign q a) with
+  | none => none
+  | some msigns =>
+    let vs := ((p1 ++ p2 ++ R ++ asms.flatten).flatMap (fun t => t.1.map (·.1))).eraseDups
+    if vs.length > 5 then none else
+    let grid : List Int := [0, 1, -1, 2, -2, 3, -3]
+    let pts : List (List (Nat × Int)) := vs.foldl (fun acc v => acc.flatMap (fun pt => grid.map (fun g => (v, g) :: pt))) [[]]
+    let bad := pts.find? (fun pt =>
+      let f : Nat → Int := fun v => ((pt.find? (fun e => e.1 = v)).map (·.2)).getD 0
+      (asms.zip msigns).all (fun e => sgnI (MPoly.evalInt e.1 f) = e.2) &&
+      Eval.consistent c1 (sgnI (MPoly.evalInt p1 f)) && Eval.consistent c2 (sgnI (MPoly.evalInt p2 f)) &&
+      !Eval.consistent rc (sgnI (MPoly.evalInt R f)))
+    bad.map (fun pt => s!"at {pt.map (fun e => s!"x{e.1}={e.2}")} both premises and all sign assumptions hold but the resolvent fails")
+
 def checkInfer (op : String) (args res : List String) : Verdict :=
   match op, args, res with
   | "bounds", [ps, cs, ng], rcs :: rest =>
@@ -133,7 +151,10 @@ def checkInfer (op : String) (args res : List String) : Verdict :=
             if !missing.isEmpty then .viol "inf/fm/assumption" s!"sign assumption not recorded: {missing.map showPoly}"
             else if R = w.R ∧ rc = w.cond then .ok s!"inf/fm/{c1}-{c2}/{if w.assumptions.isEmpty then "const" else "param"}"
             else if rc ≠ w.cond then .viol "inf/fm/cond" s!"resolvent condition {rc}, expected {w.cond}"
-            else .disagree "resolvent differs from the positive combination of the model"
+            else
+              match fmCounterexample p1 c1 p2 c2 R rc (asmN ++ w.assumptions) a with
+              | some msg => .viol "inf/fm/unsound" msg
+              | none => .disagree "resolvent differs from the positive combination of the model"
         | _, _, _ => .skip "parse"
       | _, _ => .skip "parse"
     | _, _, _, _, _, _ => .skip "parse"
